@@ -8,7 +8,7 @@
        as-coded result = eval_top impl_flags   (every modelled departure of src/xpath.c switched on)
        flags needed    = when the two differ: a minimal set of as-coded switches that still gives the as-coded result
                          (greedy: each switch is put back to the recommendation when the answer stays the same)
-   xpk s2n <hex>       cast_string_to_number as coded          -> F:<num>
+   xpk s2n <hex>       cast_string_to_number: recommendation | as coded   -> F:<num>|F:<num>
    xpk n2s <hex>       strtold(text) then number -> string as coded  -> F:<num>:<hex>
    Result syntax as printed by impl/t_xpath.c. *)
 
@@ -191,14 +191,13 @@ let run (f : string list) : string =
                 let s = show_res spec_flags (eval_top spec_flags t c e) in
                 let i = show_res cflags (eval_top cflags t c e) in
                 if s = i then s ^ "|" ^ i ^ "|" else s ^ "|" ^ i ^ "|" ^ needed cflags t c e i))
-  | ["xpk"; "s2n"; h] -> "F:" ^ show_num (impl_s2n impl_flags.f_prec (unhex h))
+  | ["xpk"; "s2n"; h] ->
+      (* recommendation (XPath 1.0 Number syntax) at the precision of the code | as coded (strtold) *)
+      "F:" ^ show_num (spec_s2n impl_flags.f_prec (unhex h)) ^ "|F:" ^ show_num (impl_s2n impl_flags.f_prec (unhex h))
   | ["xpk"; "n2s"; h] ->
+      (* the driver reads the text with strtold; recommendation (shortest decimal that reads back) | as coded *)
       let x = impl_s2n impl_flags.f_prec (unhex h) in
-      "F:" ^ show_num x ^ ":" ^ hex (impl_n2s x)
-  | ["xpk"; "s2n-spec"; h] -> "F:" ^ show_num (spec_s2n spec_flags.f_prec (unhex h))
-  | ["xpk"; "n2s-spec"; h] ->
-      let x = spec_s2n spec_flags.f_prec (unhex h) in
-      "F:" ^ show_num x ^ ":" ^ hex (spec_n2s spec_flags.f_prec x)
+      "F:" ^ show_num x ^ ":" ^ hex (spec_n2s impl_flags.f_prec x) ^ "|F:" ^ show_num x ^ ":" ^ hex (impl_n2s x)
   | _ -> "?"
 
 let () = main_loop run
